@@ -187,6 +187,8 @@ fn reader_side(ctx: &Ctx, rng: &mut Rng) {
         4 => format!("{}", i),
         _ => format!("Elixir.Mod{}", i),
     }).chain(std::iter::once("y".repeat(300))).chain(std::iter::once(String::new())).collect();
+    // a wide pool for headers with up to 255 references (every flag nibble position is used)
+    let wide_pool: Vec<String> = (0..420).map(|i| format!("w{}", i)).collect();
     for h in 0..histories {
         if !ctx.time_left() {
             return;
@@ -200,8 +202,10 @@ fn reader_side(ctx: &Ctx, rng: &mut Rng) {
         for m in 0..nmsg {
             ctx.eval(1);
             // a message using a few atoms of the pool (so that entries get reused across messages)
-            let k = 1 + rng.below(6);
-            let mut atoms: Vec<String> = (0..k).map(|_| rng.pick(&pool).clone()).collect();
+            // mostly a few atoms; in every history that has the room, now and then a message with 60..255
+            let wide = slot_space >= 300 && rng.chance(1, 5);
+            let k = if wide { 60 + rng.below(196) } else { 1 + rng.below(6) };
+            let mut atoms: Vec<String> = (0..k).map(|_| if wide { rng.pick(&wide_pool).clone() } else { rng.pick(&pool).clone() }).collect();
             atoms.sort();
             atoms.dedup();
             let control_v = Val::Tuple(vec![Val::int(6), Val::Pid { node: atoms[0].clone(), id: m as u32, serial: 0, creation: 1 }, Val::atom(""), Val::Atom(atoms[atoms.len() / 2].clone())]);
@@ -306,7 +310,7 @@ fn model_selfcheck(ctx: &Ctx, rng: &mut Rng) -> bool {
 }
 
 pub fn run(ctx: &Ctx) {
-    ctx.rule("writer side: control/payload pairs with 0..300 distinct atoms (even/odd counts, atom lengths 0..255, 256..1020, >65535; atoms only inside pids/funs) encoded by the library and read by an independent header reader and by the library's own decoder; reader side: histories of 1..50 messages from an atom-cache sender model (with and without a payload term; new entries, re-use of entries of earlier messages, slot overwrites, all 8 segments, header position != slot, shuffled header order) decoded with one persistent AtomCache; evaluations = messages judged; distinct = distinct (side, reference count, reuse, position!=slot, segment use, long-atom parity) combinations");
+    ctx.rule("writer side: control/payload pairs with 0..300 distinct atoms (even/odd counts, atom lengths 0..255, 256..1020, >65535; atoms only inside pids/funs) encoded by the library and read by an independent header reader and by the library's own decoder; reader side: histories of 1..50 messages from an atom-cache sender model (with and without a payload term; a few atoms or 60..255 references with mixed new / cached entries in all segments; new entries, re-use of entries of earlier messages, slot overwrites, all 8 segments, header position != slot, shuffled header order) decoded with one persistent AtomCache; evaluations = messages judged; distinct = distinct (side, reference count, reuse, position!=slot, segment use, long-atom parity) combinations");
     ctx.assume("header layout per erl_dist_protocol: flags nibble i for reference i (bit3 new entry, bits0-2 segment), nibble n bit0 = LongAtoms; ATOM_CACHE_REF k = k-th reference of this header; cache slot = segment*256 + internal index");
     let mut rng = Rng::derive(ctx.seed, 14, 1);
     if !model_selfcheck(ctx, &mut rng) {
